@@ -60,10 +60,12 @@ BlobOf(vs, el) == LET i == Find(vs, "CAM", "IMG") IN
                   IF i = 0 THEN "absent"
                   ELSE LET j == CHOOSE j \in DOMAIN vs[i].els : vs[i].els[j][1] = el IN vs[i].els[j][2]
 TextOf(vs) == LET i == Find(vs, "CAM", "NOTE") IN IF i = 0 THEN "absent" ELSE vs[i].els[1][2]
+AuxOf(vs) == LET i == Find(vs, "CAM", "AUX") IN IF i = 0 THEN "absent" ELSE vs[i].els[1][2]       \* a second, small BLOB property
 Oversize == AllowOversize /\ \E i \in 1..l : Tr[i].wirelen > Threshold      \* sticky: what was lost stays lost
 C08View(w) ==
   LET want == BlobOf(E.truth, "frame") IN
-  CASE w.kind = "net"       -> BlobOf(w.view, "frame") = want /\ TextOf(w.view) = TextOf(E.truth)      \* BLOB connection: threshold disabled
+  CASE w.kind = "net"       -> /\ BlobOf(w.view, "frame") = want /\ TextOf(w.view) = TextOf(E.truth)      \* BLOB connection: threshold disabled
+                               /\ AuxOf(w.view) = AuxOf(E.truth)
     [] w.kind = "raw:Also"  -> (BlobOf(w.view, "frame") = want \/ Oversize) /\ (TextOf(w.view) = TextOf(E.truth) \/ Oversize)
     [] w.kind = "raw:Only"  -> BlobOf(w.view, "frame") = want \/ Oversize
     [] OTHER                -> BlobOf(w.view, "frame") = None /\ TextOf(w.view) = TextOf(E.truth)     \* no payload without enableBLOB
